@@ -40,7 +40,7 @@ class Projector:
             if v != w:
                 raise ProjectionError("longitudinal task with two different strain values")
             return f"L{v}"
-        return f"O{min(v, w)}_{max(v, w)}"
+        return f"O{v}_{w}"
 
 
 def record(inst, duck, strain, keys):
@@ -126,6 +126,11 @@ def record(inst, duck, strain, keys):
                 for st in ("iso", "adi"):
                     for (s, p), k in zip(f[st], keys):
                         events.append({"ev": "Get", "key": "%d%d" % k.voigt, "task": proj.params(p), "store": s})
+        universe = sched.all_tasks(inst)
+        if any(pid(t) not in universe for t in known):
+            # e.g. another (equally valid) axis order inside a degenerate eigenspace: the ordered pair is not one the
+            # specification's frame convention produces; index-level comparison is not meaningful then
+            raise ProjectionError("task outside the specification's task universe (axis-order convention)")
         allids = [pid(t) for t in known]
         if len(set(allids)) != len(allids):
             # two code tasks carry the same specification id (e.g. (v,w) and (w,v) off-diagonal pairs): counts not comparable
